@@ -306,8 +306,14 @@ func BuildMessage(r *rec.Rec) (util.Message, error) {
 					vb = common.NewHelloElemVersionBitmap()
 					h.Elements = append(h.Elements, vb)
 				}
-				if bytes.Equal(bm, []byte{0, 0, 0, 0x12}) {
-					continue // what the constructor promises (OpenFlow 1.0 and 1.3): left exactly as constructed
+				if i == 0 && len(bm) == 4*len(vb.Bitmaps) {
+					same := true
+					for j, w := range vb.Bitmaps {
+						same = same && binary.BigEndian.Uint32(bm[4*j:]) == w
+					}
+					if same {
+						continue // the recipe asks for what the constructor produced: left exactly as constructed
+					}
 				}
 				vb.Bitmaps = nil
 				for j := 0; j+4 <= len(bm); j += 4 {
